@@ -45,7 +45,7 @@ import (
 
 func c13cases(tier string) int {
 	if tier == "thorough" {
-		return 800
+		return 400
 	}
 	return 160
 }
@@ -344,7 +344,7 @@ var c13symPool = []string{"A", "AA", "AAA", "B", "BRK", "CG", "Z9", "TSLA", "AAP
 
 func c13build(r *gen.R, caseNo int) *c13world {
 	w := &c13world{ag: r.PickS("OHLC", "OHLCV", "TICK")}
-	w.tf = qTFs[r.Intn(len(qTFs))]
+	w.tf = pickTF(r)
 	w.variable = r.P(2, 5)
 	switch caseNo % 8 {
 	case 4, 5:
@@ -363,6 +363,9 @@ func c13build(r *gen.R, caseNo int) *c13world {
 		base = append(base, qCol{"Extra", io.INT32})
 	}
 	years := genYears(r, 3)
+	if w.tf.D <= 30*time.Second {
+		years = years[:1] // every request scans every year file of every symbol: keep the slow timeframes to one year
+	}
 	w.common = base
 	if w.mode == "diff" {
 		// common part = a non-empty prefix of base; every symbol adds its own extras and its own order
@@ -917,7 +920,7 @@ func init() {
 		},
 		Cases:        c13cases,
 		Batch:        8,
-		BatchTimeout: 20 * time.Minute,
+		BatchTimeout: 60 * time.Minute,
 		Run:          c13run,
 		Need:         []string{"requests_multi", "requests_single", "symbols_compared", "rows_compared", "projections_checked", "projected_cells_compared", "missing_symbol_checks", "requests_star", "requests_grpc"},
 	})
